@@ -10,6 +10,7 @@ import json
 import os
 import sys
 import traceback
+import warnings
 
 sys.path.insert(0, os.path.dirname(os.path.abspath(__file__)))
 import common  # noqa: E402
@@ -33,6 +34,7 @@ def main(argv):
   seed = int(os.environ.get("VERIF_SEED", "0"))
   os.environ.setdefault("OMP_NUM_THREADS", "1")
   os.environ.setdefault("OPENBLAS_NUM_THREADS", "1")
+  warnings.filterwarnings("ignore")
   ctx = common.Ctx(prop, tier, seed)
   try:
     mod = importlib.import_module(prop.lower())
